@@ -13,6 +13,7 @@ CONSTANTS
   Variants = {0, 2}
   DimVals = {0, 3}
   MaxW = 2
+  MaxE = 2
   MaxH = 1
   DomT = 1
   PadK = 0
